@@ -658,6 +658,106 @@ fn complex_space(ctx: &Ctx, nmax: usize, cap: u64) {
     }
 }
 
+/// Banded<Complex<f64>> with rows and right-hand side scaled by powers of two up to 2^+-480: A = diag(rho) A0 (A0 over small
+/// Gaussian integers inside the band), b = tau diag(rho) A0 x*: solution tau x* and determinant prod(rho) det(A0) are known exactly
+fn complex_scaled_space(ctx: &Ctx, cfgs: &[(Cfg, usize)]) {
+    let all: Vec<(Cmplx, model::CQ)> = vec![
+        (Cmplx::new(0., 0.), model::CQ::new(r(0), r(0))),
+        (Cmplx::new(1., 0.), model::CQ::new(r(1), r(0))),
+        (Cmplx::new(0., 1.), model::CQ::new(r(0), r(1))),
+        (Cmplx::new(-1., 0.), model::CQ::new(r(-1), r(0))),
+        (Cmplx::new(0., -2.), model::CQ::new(r(0), r(-2))),
+    ];
+    let rhos = [2f64.powi(-480), 2f64.powi(-340), 1.0, 2f64.powi(342), 2f64.powi(480)];
+    let taus = [2f64.powi(-400), 1.0, 2f64.powi(400)];
+    for &(c, nl) in cfgs {
+        let letters: Vec<(Cmplx, model::CQ)> = all[..nl].to_vec();
+        let sl = slots(c);
+        let n = c.n;
+        let lu = nl as u64;
+        let per = pow(rhos.len() as u64, n as u32) * taus.len() as u64;
+        let xstar: Vec<Cmplx> = [Cmplx::new(1.0, 0.0), Cmplx::new(0.0, 1.0), Cmplx::new(-2.0, 1.0)][..n].to_vec();
+        ctx.lattice(
+            &format!("Complex<f64> n={} m1={} m2={} over {} letters x row scales {{2^-480,2^-340,1,2^342,2^480}}^{} x solution scales {{2^-400,1,2^400}}", c.n, c.m1, c.m2, nl, n),
+            pow(lu, sl.len() as u32) * per,
+            |idx| format!("band#{} scales#{}", idx / per, idx % per),
+            |idx, acc| {
+                let mut d = vec![0usize; sl.len()];
+                digits_uniform(idx / per, lu, &mut d);
+                let mut rd = vec![0usize; n];
+                digits_uniform((idx % per) / taus.len() as u64, rhos.len() as u64, &mut rd);
+                let tau = taus[(idx % taus.len() as u64) as usize];
+                let mut aq = vec![vec![model::CQ::zero(); n]; n];
+                let mut a0 = vec![vec![Cmplx::new(0., 0.); n]; n];
+                for (k, &(i, j)) in sl.iter().enumerate() {
+                    aq[i][j] = letters[d[k]].1;
+                    a0[i][j] = letters[d[k]].0;
+                }
+                let dq = model::det_cq(&aq);
+                let scale_all: f64 = rd.iter().map(|&k| rhos[k]).product::<f64>();
+                let key = || format!("complex scaled n={} m1={} m2={} band0={:?} row scales={:?} tau={:e}", c.n, c.m1, c.m2, a0, rd.iter().map(|&k| rhos[k]).collect::<Vec<f64>>(), tau);
+                if rd.iter().any(|&k| k != 2) || tau != 1.0 {
+                    acc.nontriv("banded system with a scale beyond 2^+-340");
+                }
+                let res = catch(|| -> Result<(), String> {
+                    let mut b = Banded::new(n, c.m1, c.m2, Cmplx::new(3.0, -1.0));
+                    for &(i, j) in sl.iter() {
+                        b[(i, j)] = Cmplx::new(a0[i][j].real * rhos[rd[i]], a0[i][j].imag * rhos[rd[i]]);
+                    }
+                    // the partial products of the determinant must stay in range for the demand to be fair: n <= 3 scales of
+                    // at most 2^480 each can reach 2^1440, so only judge the determinant when every partial product is representable
+                    let mut partial_ok = scale_all.is_finite() && scale_all != 0.0;
+                    for i in 0..n {
+                        for j in 0..n {
+                            let p = rhos[rd[i]] * rhos[rd[j]];
+                            if i != j && (!p.is_finite() || p == 0.0 || p > 2f64.powi(1000) || p < 2f64.powi(-1000)) {
+                                partial_ok = false;
+                            }
+                        }
+                    }
+                    if partial_ok && scale_all < 2f64.powi(1000) && scale_all > 2f64.powi(-1000) {
+                        let dd = b.det();
+                        let mut re = dd.real;
+                        let mut im = dd.imag;
+                        for &k in rd.iter() {
+                            re /= rhos[k];
+                            im /= rhos[k];
+                        }
+                        let de = (re - dq.re.to_f64()).hypot(im - dq.im.to_f64());
+                        ensure!(de <= 1e-10, "det / prod(rho) = ({:e}, {:e}) but det(A0) = ({}, {})", re, im, dq.re, dq.im);
+                    }
+                    if dq.is_zero() {
+                        return Ok(());
+                    }
+                    let mut rhs = vec![];
+                    for i in 0..n {
+                        let (mut re, mut im) = (0.0, 0.0);
+                        for j in 0..n {
+                            re += a0[i][j].real * xstar[j].real - a0[i][j].imag * xstar[j].imag;
+                            im += a0[i][j].real * xstar[j].imag + a0[i][j].imag * xstar[j].real;
+                        }
+                        rhs.push(Cmplx::new(re * rhos[rd[i]] * tau, im * rhos[rd[i]] * tau));
+                    }
+                    let x = b.solve(&Vector::create(rhs));
+                    let mut err = 0.0f64;
+                    for j in 0..n {
+                        let (re, im) = (x[j].real / tau, x[j].imag / tau);
+                        ensure!(re.is_finite() && im.is_finite(), "x = {:?} is not finite (solution {:?} * {:e})", x.vec, xstar, tau);
+                        err = err.max((re - xstar[j].real).abs()).max((im - xstar[j].imag).abs());
+                    }
+                    ensure!(err <= 1e-10, "x / tau = {:?} but the solution is {:?} (error {:e})", x.vec.iter().map(|z| (z.real / tau, z.imag / tau)).collect::<Vec<_>>(), xstar, err);
+                    Ok(())
+                });
+                match res {
+                    Ok(Ok(())) => {}
+                    Ok(Err(e)) => acc.fail(idx, key(), e),
+                    Err(p) => acc.fail(idx, key(), format!("unexpected panic: {}", p)),
+                }
+            },
+        );
+    }
+}
+
 // --- E2 histories -------------------------------------------------------------------------------------
 #[derive(Clone)]
 struct St {
@@ -888,6 +988,20 @@ fn main() {
     scaled_f64_space(&ctx, ctx.pick(3, 4));
     mixed_f64_space(&ctx);
     complex_space(&ctx, ctx.pick(3, 3), ctx.pick(100_000u64, 11_000_000u64));
+    {
+        let mut cfgs = vec![(Cfg { n: 1, m1: 0, m2: 0 }, 5usize)];
+        for (m1, m2) in [(0usize, 0usize), (1, 0), (0, 1), (1, 1)] {
+            cfgs.push((Cfg { n: 2, m1, m2 }, 5));
+        }
+        if ctx.quick() {
+            cfgs.push((Cfg { n: 3, m1: 1, m2: 1 }, 3));
+        } else {
+            for (m1, m2) in [(1usize, 1usize), (2, 0), (0, 2), (2, 1), (1, 2)] {
+                cfgs.push((Cfg { n: 3, m1, m2 }, 4));
+            }
+        }
+        complex_scaled_space(&ctx, &cfgs);
+    }
 
     let depth = ctx.pick(4, 6);
     let mut inits = vec![];
@@ -902,8 +1016,8 @@ fn main() {
         crosscheck_stateright(&ctx, "banded histories n=3", inits.clone(), depth);
     }
     explore_replayed(&ctx, "clone-free histories on one Banded<Rat>", inits, BfsOpts { max_depth: ctx.pick(4, 5), state_cap: 2_000_000 });
-    // Known findings: Banded<Complex<f64>> beyond |z| ~ 1e154 / below ~ 1e-154 (Complex::abs and the complex division are unscaled;
-    // same root cause and same reason for not repairing as in C01). The property names "tiny positive sub-diagonal entries".
+    // Banded<Complex<f64>> beyond |z| ~ 1e154 / below ~ 1e-154 (Complex::abs and the complex division were unscaled; repaired by
+    // 9c56103 and 8d587e4, demanded now). The property names "tiny positive sub-diagonal entries".
     {
         let tiny_sub = |which: usize| -> Result<(), String> {
             // [[0, 1], [t, 1]] with t = 1e-200: det = -t, solution of A x = (1, 1) is (0, 1)
@@ -930,12 +1044,33 @@ fn main() {
             ensure!((x[0].real - 2.0).abs() <= 1e-12 && x[0].imag == 0.0, "x = {:?} but the solution is 2", x.vec);
             Ok(())
         };
-        ctx.known_cases(
-            "listed inputs: Banded<Complex<f64>> with entries of extreme magnitude",
+        let hunt2 = |under: bool| -> Result<(), String> {
+            // second hunt: every entry within 1e-120..1e120, the back substitution divided an intermediate value by the pivot
+            let z = |re: f64| Cmplx::new(re, 0.0);
+            let mut b = Banded::new(2, 0, 1, z(0.0));
+            if !under {
+                b[(0, 0)] = z(1e120);
+                b[(0, 1)] = z(1e100);
+                b[(1, 1)] = z(1e-100);
+                let x = b.solve(&Vector::create(vec![z(0.0), z(1.0)]));
+                ensure!((x[0].real / 1e80 + 1.0).abs() <= 1e-12 && x[0].imag == 0.0, "x0 = {:?} but the solution is -1e80", x[0]);
+            } else {
+                b[(0, 0)] = z(1e-120);
+                b[(0, 1)] = z(1e-100);
+                b[(1, 1)] = z(1.0);
+                let x = b.solve(&Vector::create(vec![z(0.0), z(1e-100)]));
+                ensure!((x[0].real / 1e-80 + 1.0).abs() <= 1e-12 && x[0].imag == 0.0, "x0 = {:?} but the solution is -1e-80", x[0]);
+            }
+            Ok(())
+        };
+        ctx.listed_cases(
+            "listed inputs: Banded<Complex<f64>> with entries of extreme magnitude (bug-hunt inputs, repaired by 8d587e4)",
             vec![
                 ("extreme-complex band [[0,1],[1e-200,1]] det".to_string(), Box::new(move || tiny_sub(0))),
                 ("extreme-complex band [[0,1],[1e-200,1]] solve".to_string(), Box::new(move || tiny_sub(1))),
                 ("extreme-complex band [1e160] x = [2e160] solve".to_string(), Box::new(huge)),
+                ("extreme-complex band [[1e120,1e100],[0,1e-100]] x = (0,1) solve".to_string(), Box::new(move || hunt2(false))),
+                ("extreme-complex band [[1e-120,1e-100],[0,1]] x = (0,1e-100) solve".to_string(), Box::new(move || hunt2(true))),
             ],
         );
     }
